@@ -64,6 +64,8 @@ func main() {
 		modeTLSGate(os.Args[2:])
 	case "churn":
 		modeChurn(os.Args[2:])
+	case "idle":
+		modeIdle(os.Args[2:])
 	case "life":
 		modeLife(os.Args[2:])
 	case "racestress":
